@@ -16,7 +16,7 @@ Open Scope N_scope.
 """
 
 N_USER = 3
-SYMS = ["Ud", "Ue", "U_1", "R", "Ra", "Q", "u1", "", " Ux ", "U-", "Ls", "K", "Zz9"]
+SYMS = ["Ud", "Ue", "U_1", "R", "Ra", "Q", "u1", "", " Ux ", "U-", "Ls", "K", "Zz9", "\u03a9", "R\u00e4", "U\u00b2"]   # the last three: letters and digits outside ASCII
 CANDIDATES = ["R", "C", "L", "La", "Ls", "K", "Ky", "Q", "Tlm", "Ud", "Ue", "U_1", "Ra", "Ux", "Zz9"]
 
 
